@@ -17,10 +17,10 @@ ORDER_SYMBOL = {1: '', 2: '=', 3: '#'}
 
 # molecules: SMILES of the generator's subset (heavy atoms); hydrogens are implicit
 MOLS_SMALL = ['CC', 'CO', 'CCO', 'C=C', 'C#N', 'CC(C)C', 'C1CC1', 'CC(=O)O', 'C[NH3+]', 'CC[O-]', 'CCl', 'OCC=C',
-              'C1CCC1', 'CSC', 'BrCCF', 'NCCO', 'c1ccccc1', 'CC1CC1']
+              'C1CCC1', 'CSC', 'BrCCF', 'NCCO', 'c1ccccc1', 'CC1CC1', 'Sc1ccccc1']
 MOLS_MEDIUM = ['c1ccccc1', 'Cc1ccccc1', 'C1CCCCC1', 'CC(C)(C)C', 'OC(=O)CC', 'C1CC1CO', 'CC=CC', 'C#CCO', 'CP(C)C',
                'CS(=O)(=O)C', 'C[N+](C)(C)C', 'O=C([O-])C', 'N1CCC1', 'ClC(Cl)Cl', 'C1CC2CC12', 'c1ccncc1', 'OCCOCCO']
-MOLS_LARGE = ['CCc1ccccc1', 'c1ccc2ccccc2c1', 'C1CCC2CCCC2C1', 'CC(C)Cc1ccccc1', 'OC(=O)c1ccccc1', 'CCOC(=O)C(C)=C',
+MOLS_LARGE = ['CSc1ccccc1', 'CCc1ccccc1', 'c1ccc2ccccc2c1', 'C1CCC2CCCC2C1', 'CC(C)Cc1ccccc1', 'OC(=O)c1ccccc1', 'CCOC(=O)C(C)=C',
               'C1CCOC1CO', 'NC(C)C(=O)O']
 
 
